@@ -13,6 +13,7 @@ import RoModel.Drivers.Plugin
 import RoModel.Drivers.Resub
 import RoModel.Drivers.Subject
 import RoModel.Drivers.SubjLin
+import RoModel.Drivers.Rate
 namespace Ro.Driver
 
 def handlers : List (String × (Case → String)) := [
@@ -26,7 +27,8 @@ def handlers : List (String × (Case → String)) := [
   ("plugin", Drivers.Plugin.run),
   ("resub", Drivers.Resub.run),
   ("subject", Drivers.Subject.run),
-  ("subjlin", Drivers.SubjLin.run)
+  ("subjlin", Drivers.SubjLin.run),
+  ("rate", Drivers.Rate.run)
 ]
 
 def runCase (c : Case) : String :=
